@@ -1,11 +1,23 @@
-"""C01 - LAMMPS dump reading (E1 over the dump-file grammar; exact dyadic data)."""
+"""C01 - LAMMPS dump reading (E1 over the dump-file grammar; exact dyadic data).
+
+Round 4 (docs/STRENGTHEN_TASK2.md; helpers in mc/ref/c01y.py):
+  C01.mixed     lesson L2/L3/L4: files whose frames change CLASS (orthogonal header <-> triclinic header, x <-> xs <-> xu, trailing columns
+                appearing / disappearing, a frame without atoms, the first frame being the degenerate one), %g-style whole numbers
+  C01.dispatch  coverage gap + lessons L1/L5: every LAMMPS file type through DumpReader (LAMMPS / LAMMPSCENTER / LAMMPSVECTOR) with the
+                options of the OTHER file types passed as well, ndim as numpy integers, several reader objects alive at once
+  C01.sequence  lesson L6: explicit-state search over call words in forked children whose reader modules are freshly imported
+"""
 import itertools
+import json
 
 import numpy as np
 
 from mc.harness import Result, Sub, digest
 from mc.lammps_text import bounds_of, frame_text
 from mc.ref import c01x
+from mc.ref import c01y as Y
+from mc.ref import c03x as X3
+from mc.ref import io19
 
 ASSUMPTIONS = [
     "all numbers are dyadic (multiples of 2^-4) so the LAMMPS conventions can be evaluated exactly; comparison atol 1e-12",
@@ -17,6 +29,18 @@ ASSUMPTIONS = [
     "scale slice: atom ids are 1..N of the frame (N may change from frame to frame); fractional coordinates are odd multiples of 2^-21 "
     "(distinct per id), so all LAMMPS conventions are still evaluated exactly in double precision; real LAMMPS files end the ATOMS line and "
     "every atom line with a blank - such files are well-formed; a file that is re-written under the same name between two reads is a new input",
+    "C01.mixed: a dump file is a sequence of self-describing frames ('ITEM:' grammar): the box header kind (orthogonal / 'xy xz yz'), the "
+    "coordinate style, the trailing columns and the atom count may change from frame to frame (change_box, concatenated dumps, a group that "
+    "runs empty); a frame with 0 atoms is a frame (nparticle 0, positions of shape (0, d)); whole numbers may be printed without a decimal point (%g); "
+    "reading is scale-covariant: a file whose bounds, tilts and coordinates are all multiplied by 2**-33 or 2**27 encodes the multiplied cell and positions",
+    "C01.dispatch: `moltypes` is documented as 'only used for molecular system in LAMMPS' (LAMMPSCENTER) and `columnsids` belongs to LAMMPSVECTOR: "
+    "passing them with another file type must not change what that file type reads; ndim may be a numpy integer scalar (int64 / int32 / intp), columnsids "
+    "a list, tuple or integer ndarray, the file name a str or a pathlib.Path (everything open() accepts; the unchanged tree reads them alike); unwrapped "
+    "coordinates may lie several cell vectors away and are returned verbatim; the molecule-centre and column "
+    "readers are specified by C19's statement (selected atoms relabelled in id order / requested columns by id) for orthogonal cells",
+    "C01.sequence: what a read returns depends on the file content and the arguments only - not on earlier reads in the process, on other reader "
+    "objects, nor on an earlier read_onefile() of the same DumpReader object before the file was re-written (read_onefile 'reads' whenever called); "
+    "Snapshots returned earlier are not changed by later reads",
 ]
 
 TS = [0, 25, 1234567890]
@@ -151,7 +175,7 @@ def gen_vary(tier, seed):
                            "flags": "pp pp pp", "vary": "cell" if tsl[0] == tsl[1] else None, "ts_list": tsl}
 
 
-def compare(R, tag, S, exps, style, tri, sig):
+def compare(R, tag, S, exps, style, tri, sig, atol=1e-12):
     """every field of every snapshot against the expectations; False when the frame count is already wrong"""
     if S.nsnapshots != len(exps) or len(S.snapshots) != len(exps):
         R.fail(f"{tag}: {S.nsnapshots} snapshots for {len(exps)} frames", sig=dict(sig, clause="frames"))
@@ -173,7 +197,7 @@ def compare(R, tag, S, exps, style, tri, sig):
                 onface = (exp["positions"] == lo_) | (exp["positions"] == hi_)
                 alt = np.minimum(np.abs(pos - lo_), np.abs(pos - hi_))
                 dev = np.where(onface, alt, dev)
-            ok = bool((dev <= 1e-12).all())
+            ok = bool((dev <= atol).all())
         if not ok:
             clause = {"x": "wrap" if not tri else "positions", "xs": "scaled", "xu": "unwrapped"}[style]
             R.fail(f"{tag} frame {f}: positions by id differ", sig=dict(sig, clause=clause), exp=exp["positions"], obs=pos)
@@ -184,7 +208,7 @@ def compare(R, tag, S, exps, style, tri, sig):
                 if got is not None:
                     R.fail(f"{tag} frame {f}: {key} should be None for an orthogonal cell", sig=dict(sig, clause="cell_" + key))
                 continue
-            if got is None or np.asarray(got).shape != want.shape or not np.allclose(np.asarray(got, float), want, rtol=0, atol=1e-12):
+            if got is None or np.asarray(got).shape != want.shape or not np.allclose(np.asarray(got, float), want, rtol=0, atol=atol):
                 R.fail(f"{tag} frame {f}: {key} differs", sig=dict(sig, clause="cell_" + key), exp=want, obs=got)
     return True
 
@@ -296,6 +320,216 @@ def run_scale(case):
     return R
 
 
+# ============================================================================================ C01.mixed (round 4: L2 / L3 / L4)
+def gen_mixed(tier, seed):
+    for d in (3, 2):
+        for cs in Y.CELL_SEQS:
+            for ss in Y.STYLE_SEQS:
+                for ns in Y.COUNT_SEQS:
+                    for k, es in enumerate(Y.EXTRA_SEQS):
+                        for syntax in ("decimal", "sci", "g"):
+                            if tier == "quick" and (k + len(cs) + ns[0]) % 2 and syntax == "sci":
+                                continue
+                            yield {"d": d, "cells": cs, "styles": ss, "counts": ns, "extras": es, "syntax": syntax}
+                    if ns[0] in (3, 1):
+                        # lesson L9: the whole file dilated by 2**-33 (SI metres) / 2**27, exact in %.16e and repr notation
+                        for c in ("2^-33", "2^27"):
+                            for syntax in ("sci", "decimal"):
+                                yield {"d": d, "cells": cs, "styles": ss, "counts": ns, "extras": Y.EXTRA_SEQS[0], "syntax": syntax, "dilate": c}
+
+
+def run_mixed(case):
+    from PyMatterSim.reader.dump_reader import DumpReader
+    from PyMatterSim.reader.lammps_reader_helper import read_lammps_wrapper
+    from PyMatterSim.reader.reader_utils import DumpFileType
+
+    R = Result()
+    d = case["d"]
+    F = len(case["cells"])
+    c = {"2^-33": 2.0**-33, "2^27": 2.0**27}.get(case.get("dilate"), 1.0)
+    text, exps, per = "", [], []
+    for f in range(F):
+        cell = Y.cell_of_class(case["cells"][f], d)
+        if c != 1.0:
+            cell = {"lo": [x * c for x in cell["lo"]], "L": [x * c for x in cell["L"]], "tilts": None if cell["tilts"] is None else [x * c for x in cell["tilts"]]}
+        style = case["styles"][f]
+        n = case["counts"][f]
+        fr, exp = truth_frame({"d": d, "cell": cell, "N": n, "style": style, "ts_list": [3, 40, 500]}, f)
+        order = list(range(n))[::-1] if f % 2 == 0 else [(2 * i + 1) % n for i in range(n)] if n % 2 else list(range(n))
+        syn = "decimal" if case["syntax"] == "g" else case["syntax"]
+        t = frame_text(fr, d, style, syn, "pp pp pp", case["extras"][f], order)
+        text += Y.to_g(t) if case["syntax"] == "g" else t
+        exps.append(exp)
+        per.append((style, cell["tilts"] is not None))
+    with open("c01.dump", "w") as fh:
+        fh.write(text)
+    rd = DumpReader("c01.dump", ndim=d, filetype=DumpFileType.LAMMPS)
+    rd.read_onefile()
+    s1 = rd.snapshots
+    s2 = read_lammps_wrapper("c01.dump", d)
+    first = {"O": "orth", "P": "orth"}.get(case["cells"][0], "tri")
+    sig = {"d": d, "slice": "mixed", "first_frame": first, "styles": "mixed" if len(set(case["styles"])) > 1 else case["styles"][0],
+           "empty_frame": 0 in case["counts"][:F], "dilated": case.get("dilate")}
+    for tag, S in (("DumpReader", s1), ("wrapper", s2)):
+        if S.nsnapshots != F or len(S.snapshots) != F:
+            R.fail(f"{tag}: {S.nsnapshots} snapshots for {F} frames (cells {case['cells']}, atoms per frame {case['counts'][:F]})", sig=dict(sig, clause="frames"))
+            return R
+        for f in range(F):
+            # one frame at a time: the comparison rules (wrap on a face) depend on the frame's own style and cell kind
+            one = type(S)(nsnapshots=1, snapshots=[S.snapshots[f]])
+            compare(R, f"{tag} (frame {f} of a file with cells {case['cells']}, styles {case['styles'][:F]})", one, [exps[f]], per[f][0], per[f][1], sig, atol=1e-12 * c)
+    R.outcome([[s.timestep, s.particle_type, s.positions, s.hmatrix] for s in s1.snapshots])
+    R.elem = 2 * sum(e["nparticle"] for e in exps)
+    R.nontrivial = len(set(map(tuple, (np.asarray(s.hmatrix).ravel() for s in s1.snapshots)))) > 1
+    return R
+
+
+# ============================================================================================ C01.dispatch (round 4: coverage gap, L1, L5)
+def gen_dispatch(tier, seed):
+    for d in (3, 2):
+        cols = Y.dispatch_cols(d)
+        for style in ("x", "xs", "xu"):
+            for cell in ("orth", "orth0", "tri"):
+                if tier == "quick" and cell == "orth0" and style != "xs":
+                    continue  # the origin-0 cell matters for the scaled mapping; the other styles keep the shifted origin in the quick tier
+                for n, order in orders(3):
+                    if tier == "quick" and n == 3 and (order[0] == 0 or order == [2, 1, 0]):
+                        continue
+                    for types in Y.DISPATCH_TYPES[n]:
+                        for F in (1, 3):
+                            for mi, m in enumerate(Y.DISPATCH_MAPS):
+                                for ci, c in enumerate(cols):
+                                    if tier == "quick" and (mi + ci + F) % 2:
+                                        continue
+                                    yield {"d": d, "style": style, "cell": cell, "types": types, "order": order, "F": F, "map": m, "cols": c,
+                                           "ndim_type": ["int", "int64", "int32", "intp"][(mi + ci + n + F) % 4], "cols_type": ["list", "tuple", "ndarray"][(mi + n) % 3],
+                                           "path": bool((ci + n + F // 2) % 2), "seed": seed}
+
+
+def run_dispatch(case):
+    import pathlib
+
+    from PyMatterSim.reader.dump_reader import DumpReader
+    from PyMatterSim.reader.lammps_reader_helper import read_lammps_centertype_wrapper, read_lammps_vector_wrapper, read_lammps_wrapper
+    from PyMatterSim.reader.reader_utils import DumpFileType
+
+    R = Result()
+    d = case["d"]
+    tri = case["cell"] == "tri"
+    nd = {"int": int, "int64": np.int64, "int32": np.int32, "intp": np.intp}[case["ndim_type"]](d)
+    fname = pathlib.Path("c01d.dump") if case["path"] else "c01d.dump"
+    m = {int(a): int(b) for a, b in case["map"]}
+    cols = list(case["cols"])
+    text, truth = Y.dispatch_frames(case)
+    io19.put("c01d.dump", text)
+    sig = {"d": d, "style": case["style"], "cell": "tri" if tri else "orth", "slice": "dispatch", "ndim": case["ndim_type"], "columns": case["cols_type"],
+           "filename": "Path" if case["path"] else "str"}
+    mk_m = lambda: dict(m)  # noqa: E731
+    mk_c = {"list": lambda: list(cols), "tuple": lambda: tuple(cols), "ndarray": lambda: np.array(cols, dtype=np.int64)}[case["cols_type"]]
+    # (label, expectation kind, constructor): every object is built first, then read in another order; all stay alive
+    plan = [
+        ("LAMMPS + moltypes + columnsids", "atomic", lambda a, b: DumpReader(fname, nd, DumpFileType.LAMMPS, moltypes=a, columnsids=b)),
+        ("default file type + moltypes", "atomic", lambda a, b: DumpReader(fname, ndim=nd, moltypes=a)),
+        ("default file type + columnsids", "atomic", lambda a, b: DumpReader(fname, ndim=nd, columnsids=b)),
+    ]
+    if not tri:
+        plan += [
+            ("LAMMPSCENTER(moltypes)", "center", lambda a, b: DumpReader(fname, nd, DumpFileType.LAMMPSCENTER, a)),
+            ("LAMMPSCENTER + columnsids", "center", lambda a, b: DumpReader(fname, nd, filetype=DumpFileType.LAMMPSCENTER, moltypes=a, columnsids=b)),
+            ("LAMMPSVECTOR(columnsids)", "vector", lambda a, b: DumpReader(fname, nd, DumpFileType.LAMMPSVECTOR, columnsids=b)),
+            ("LAMMPSVECTOR + moltypes", "vector", lambda a, b: DumpReader(fname, nd, DumpFileType.LAMMPSVECTOR, a, b)),
+        ]
+    built = []
+    for label, kind_, ctor in plan:
+        a, b = mk_m(), mk_c()
+        built.append((label, kind_, ctor(a, b), a, b))
+    expect = {"atomic": truth, "center": Y.center_expect(truth, m), "vector": Y.vector_expect(truth, cols)}
+    seq = built[1::2] + built[0::2]
+    for label, kind_, rd, a, b in seq:
+        rd.read_onefile()
+    R.elem = 0
+    for label, kind_, rd, a, b in built + [built[0]]:
+        if rd is built[0][2] and R.elem:
+            rd.read_onefile()  # the same object once more
+            label += " (read_onefile called twice)"
+        ks = dict(sig, mode=kind_, options="foreign" if ("+" in label) else "own")
+        style = case["style"] if kind_ != "vector" else "xu"  # columns are returned verbatim
+        compare(R, f"DumpReader[{label}]", rd.snapshots, expect[kind_], style, tri, ks)
+        if a != m or [int(x) for x in b] != cols or type(b) is not type(mk_c()):
+            R.fail(f"DumpReader[{label}]: the moltypes / columnsids argument was modified", sig=dict(ks, clause="input"))
+        R.elem += sum(e["nparticle"] for e in expect[kind_])
+    # the wrappers called directly with the same numpy-typed ndim / path / column container
+    direct = [("read_lammps_wrapper", "atomic", read_lammps_wrapper(fname, nd))]
+    if not tri:
+        direct.append(("read_lammps_centertype_wrapper", "center", read_lammps_centertype_wrapper(fname, nd, mk_m())))
+        direct.append(("read_lammps_vector_wrapper", "vector", read_lammps_vector_wrapper(fname, nd, mk_c())))
+    for label, kind_, S in direct:
+        compare(R, label, S, expect[kind_], case["style"] if kind_ != "vector" else "xu", tri, dict(sig, mode=kind_, options="direct"))
+        R.elem += sum(e["nparticle"] for e in expect[kind_])
+    R.outcome([[s.timestep, s.particle_type, s.positions] for lab, k, rd, a, b in built for s in rd.snapshots.snapshots])
+    R.nontrivial = True
+    return R
+
+
+# ============================================================================================ C01.sequence (round 4: L6)
+def gen_sequence(tier, seed):
+    depth = 2 if tier == "quick" else 3
+    nl = len(Y.SEQ_LETTERS)
+    for mode in ("fresh", "reuse"):
+        for Lw in range(1, depth + 1):
+            for word in itertools.product(range(nl), repeat=Lw):
+                if Lw == 3 and len(set(word)) == 1:
+                    continue
+                if mode == "reuse" and Lw == 1:
+                    continue
+                yield {"word": list(word), "mode": mode, "seed": seed}
+
+
+_SEQ_FRESH = {}
+
+
+def run_sequence(case):
+    R = Result()
+    seed = case["seed"]
+    names = [Y.SEQ_LETTERS[k]["id"] for k in case["word"]]
+    feat = {"slice": "sequence", "mode": case["mode"]}
+    payload = X3.fresh_child(Y.seq_child, case, Y.SEQ_MODS)
+    if "err" in payload:
+        R.fail(f"call sequence {names} ({case['mode']} objects) raised {payload['err']}", sig=dict(feat, clause="exception"))
+        return R
+    for k in set(case["word"]):
+        if (seed, k) not in _SEQ_FRESH:
+            one = X3.fresh_child(Y.seq_child, {"word": [k], "mode": "fresh", "seed": seed}, Y.SEQ_MODS)
+            if "err" in one:
+                R.fail(f"single call {Y.SEQ_LETTERS[k]['id']} raised {one['err']}", sig=dict(feat, clause="exception"))
+                return R
+            _SEQ_FRESH[(seed, k)] = one["ok"]["now"][0]
+    res = payload["ok"]
+    states = set()
+    R.elem = 0
+    for pos, k in enumerate(case["word"]):
+        lt = Y.SEQ_LETTERS[k]
+        ref = _SEQ_FRESH[(seed, k)]
+        for when in ("now", "end"):
+            got = res[when][pos]
+            if case["mode"] == "reuse" and when == "end":
+                continue  # a re-used reader object hands out a new Snapshots per read; what the old attribute shows is not constrained
+            if got != ref:
+                R.fail(f"call #{pos + 1} ({lt['id']}: {lt['ft']} via {lt['via']}, file {lt['name']} <- {lt['content']}) of the sequence {names} "
+                       + ("differs from" if when == "now" else "returned an object that was changed by the later calls; it no longer equals")
+                       + " the same call made first in a fresh process",
+                       sig=dict(feat, clause="stale" if when == "now" else "aliased", position="later" if pos else "first", filetype=lt["ft"]),
+                       exp=ref[:2], obs=None if got is None else got[:2])
+                break
+        states.add(json.dumps(res["now"][pos], sort_keys=True))
+        R.elem += sum(s["nparticle"] for s in ref[1:])
+    R.states = len(case["word"]) + 1
+    R.transitions = len(case["word"])
+    R.outcome(sorted(states))
+    R.nontrivial = True
+    return R
+
+
 def subs(tier, seed):
     return [
         Sub("C01.product", gen_product, run,
@@ -316,4 +550,32 @@ def subs(tier, seed):
                  "digits across 2^31; small files are re-written frame-reversed under the same name (same byte size) and read again while the first "
                  "result is kept and re-compared; every field of every snapshot compared; non-trivial = some frame has >= 10 atoms or the file >= 10 frames",
             bounds={"Nmax": 1000, "Fmax": 257, "pairs": len(NF_QUICK) if tier == "quick" else len(N_ALL) * len(F_ALL) + len(NF_LONG)}),
+        Sub("C01.mixed", gen_mixed, run_mixed,
+            rule="frames that change CLASS inside one file (lesson L2): {2D,3D} x 8 cell-class words (orthogonal header first then triclinic, triclinic first "
+                 "then orthogonal, a triclinic header with zero tilts first, two different orthogonal cells then a tilted one ...) x 6 style words (x / xs / xu "
+                 "constant or rotating per frame) x 4 atom-count words ((3,3,3), first frame the smallest, an EMPTY frame in the middle, an empty FIRST frame) "
+                 "x 3 trailing-column words (none / appearing / disappearing) x number syntax {repr, %.16e, %g-like whole numbers without decimal point; "
+                 "quick: half of the %.16e files}; plus (lesson L9) every cell / style word with the whole file DILATED by 2**-33 and 2**27 (box bounds, tilts and "
+                 "coordinates of order 1e-10 / 1e9, printed with %.16e and repr, tolerance scaled alike); every field of every snapshot compared (DumpReader "
+                 "and wrapper); non-trivial = the cell matrix differs between frames",
+            bounds={"F": 3, "cell_words": len(Y.CELL_SEQS), "style_words": len(Y.STYLE_SEQS), "count_words": len(Y.COUNT_SEQS)}),
+        Sub("C01.dispatch", gen_dispatch, run_dispatch,
+            rule="DumpReader DISPATCH (dump_reader.py L163-167) with foreign options (lesson L1): one file with 2 numeric trailing columns read by 7 reader objects "
+                 "- LAMMPS + moltypes + columnsids, default file type + moltypes, default + columnsids, LAMMPSCENTER (positional moltypes), LAMMPSCENTER + "
+                 "columnsids, LAMMPSVECTOR, LAMMPSVECTOR + moltypes - all built first, read in another order and kept alive, the first one read twice; "
+                 "{2D,3D} x {x (one-box excursions),xs,xu} x {orthogonal, orthogonal origin 0 (quick: xs only), triclinic (atomic modes only)} x N<=3 all line orders (quick: "
+                 "3 of 6 for N=3) x 1-3 type assignments x F {1,3} (cell, types by id and column values change per frame) x 5 type maps x 4 column lists "
+                 "(quick: half of the map x list products); ndim as int / numpy.int64 / numpy.int32 / numpy.intp, columnsids as list / tuple / int64 ndarray, "
+                 "file name as str / pathlib.Path (L5); the three wrappers are also called directly with the same argument forms; unwrapped coordinates lie "
+                 "0, +2, -3, +4 whole cell vectors away (L7); oracle: atomic truth / selected atoms relabelled in id order / requested columns by id, every field; "
+                 "arguments unchanged",
+            bounds={"Nmax": 3, "Fmax": 3, "maps": len(Y.DISPATCH_MAPS), "column_lists": 4, "readers_per_case": 7}),
+        Sub("C01.sequence", gen_sequence, run_sequence,
+            rule="explicit-state search over CALL SEQUENCES (lesson L6): all words of length <= " + ("2" if tier == "quick" else "3") + " over 12 complete reads "
+                 "(same file name and byte size and first frame / different later frame; same content / other name; same file read as LAMMPS, LAMMPSCENTER with two "
+                 "maps, LAMMPSVECTOR with two column lists; 2D under the same name; same diagonal, N and timesteps / tilted; x vs xs; same first and last "
+                 "timestep / one more frame; DumpReader and wrapper), each word in a forked child whose reader modules are re-imported, twice: a fresh reader "
+                 "object per call / read_onefile() again on the SAME DumpReader object when the constructor arguments recur (file re-written in between); "
+                 "oracle: every call returns bit for bit what the same call returns when made first in a fresh child, and the objects returned earlier are unchanged at the end",
+            bounds={"depth": 2 if tier == "quick" else 3, "letters": len(Y.SEQ_LETTERS)}),
     ]
